@@ -382,7 +382,7 @@ fn prof(kinds: [u32; 7], shapes: [u32; 4]) -> Profile {
 }
 
 pub fn corpus(prop: &str, tier: Tier, seed: u64) -> Vec<(usize, Layout)> {
-    let nrand = tier.pick(256usize, 3200usize);
+    let nrand = tier.pick(768usize, 4800usize);
     let mut v: Vec<Layout> = Vec::new();
     match prop {
         "C01" => {
@@ -402,6 +402,13 @@ pub fn corpus(prop: &str, tier: Tier, seed: u64) -> Vec<(usize, Layout)> {
             v.extend(random(&p, seed, 1, nrand / 2));
             p.base = BaseMode::SmallBias;
             v.extend(random(&p, seed, 2, nrand / 2));
+            // every writable field kind and shape (signed, enum, nested, arrays, lists) as well
+            let mut q = prof([2, 4, 3, 3, 2, 2, 2], [5, 2, 3, 1]);
+            q.access = AccessMode::Mixed;
+            q.w_twin = true;
+            v.extend(random(&q, seed, 3, nrand / 2));
+            v.extend(sys_signed(Tier::Quick).into_iter().step_by(3));
+            v.extend(sys_lists(Tier::Quick).into_iter().step_by(5));
         }
         "C03" => {
             v.extend(sys_arrays(tier));
@@ -615,6 +622,11 @@ pub fn enum_corpus(tier: Tier, seed: u64) -> Vec<(usize, EnumDecl)> {
                 .map(|d| Variant { name: format!("V{}", d), disc: Disc::Lit { value: d, radix: 10, underscore: false }, cfg: if d % 2 == 1 { Cfg::Always } else { Cfg::None } })
                 .collect();
             variants.push(Variant { name: "Off".into(), disc: Disc::Lit { value: m, radix: 10, underscore: false }, cfg: Cfg::Never });
+            v.push(EnumDecl { name: "E".into(), bits: n, variants: variants.clone(), exhaustive: Exh::Conditional, colon: false, qualified: false });
+            // the disabled twin declared *before* the enabled variant with the same discriminant
+            let off = variants.pop().unwrap();
+            variants.insert(0, Variant { disc: Disc::Lit { value: m / 2, radix: 10, underscore: false }, ..off.clone() });
+            variants.insert((m / 2) as usize + 1, Variant { name: "Off2".into(), disc: Disc::Lit { value: m / 2, radix: 16, underscore: false }, cfg: Cfg::Never });
             v.push(EnumDecl { name: "E".into(), bits: n, variants, exhaustive: Exh::Conditional, colon: false, qualified: false });
         }
     }
